@@ -408,8 +408,25 @@ class Expander:
                 header = lines_[0].strip()
                 spec = '\n'.join(lines_[1:])
                 # the parameter names in the contract header must be the ones in the source
-                src_params = re.findall(r'[A-Za-z_]\w*', re.sub(r':[^,|]*', '', body_text[bar:hend]))
-                hdr_params = re.findall(r'[A-Za-z_]\w*', re.sub(r':[^,|]*', '', header[:header.rfind('|') + 1] if '->' not in header else header[:header.index('->')]))
+                def _param_names(h):
+                    h = h.strip()
+                    inner = h[h.index('|') + 1:h.rindex('|')]
+                    parts, depth, cur_ = [], 0, ''
+                    for ch in inner:
+                        if ch in '([<':
+                            depth += 1
+                        elif ch in ')]>':
+                            depth -= 1
+                        if ch == ',' and depth == 0:
+                            parts.append(cur_)
+                            cur_ = ''
+                        else:
+                            cur_ += ch
+                    if cur_.strip():
+                        parts.append(cur_)
+                    return [re.sub(r'\s+', '', x.split(':')[0]) if not x.strip().startswith('(') else re.sub(r'\s+', '', x.rsplit(':', 1)[0]) for x in parts]
+                src_params = _param_names(body_text[bar:hend])
+                hdr_params = _param_names(header[:header.index('->')] if '->' in header else header)
                 if src_params != hdr_params:
                     raise AnchorLost('%s: closure #%d parameters changed: %s vs contract %s' % (label, n_, src_params, hdr_params))
                 body_c = body_text[bs:be]
